@@ -51,7 +51,9 @@ def required(tier):
           'zero-burn:yes', 'zero-burn:no', 'stratospheric:yes', 'stratospheric:no',
           'length:2', 'apu:none', 'apu:zero-fuel', 'apu:normal', 'lifecycle:on',
           'lifecycle:off', 'class:wide', 'class:narrow', 'class:small', 'class:freight',
-          'fuel:jetA', 'fuel:random', 'outcome:balanced', 'earlier-inventory:still-balanced', 'contract:evaluated', 'workload:repository-tests-under-contract']
+          'fuel:jetA', 'fuel:random', 'outcome:balanced', 'earlier-inventory:still-balanced',
+          'contract:evaluated', 'workload:repository-tests-under-contract',
+          'recompute:after-attaching-inventory-and-changing-fuel']
     return {'classes': cl, 'counters': {'contract_evaluations': 1000}, 'evaluations': 1000}
 
 
@@ -162,6 +164,46 @@ def run_shard(spec, rec):
                     f'nvpm:{pm.desc["nvpm_data"]}:{cfg["pmnvol_method"]}')
             if n == 2:
                 rec.cls('length:2')
+            # ---- the inventory is attached to the trajectory (as before writing it to a
+            # store), the trajectory gets another fuel-mass profile (re-flown with another
+            # load), and the emissions are computed again: the new inventory must balance
+            # against the trajectory as it is NOW
+            if rng.random() < 0.3:
+                import numpy as _np
+                try:
+                    traj.add_fields(em_now)
+                    attached = True
+                except Exception as e:  # noqa: BLE001  (attaching is not part of this property)
+                    attached = False
+                    rec.cls(f'recompute:attach-unsupported:{type(e).__name__}')
+                if attached:
+                    burn2 = _np.array([0.0] + [rng.choice([0.0, rng.uniform(0, 300.0)])
+                                               for _ in range(n - 1)])
+                    fuel0 = float(burn2.sum()) + rng.uniform(0, 3000)
+                    traj.fuel_mass = fuel0 - _np.cumsum(burn2)
+                    traj.aircraft_mass = traj.fuel_mass + 41000.0
+                    traj.total_fuel_mass = fuel0
+                    traj.starting_mass = float(traj.aircraft_mass[0])
+                    state['cfg'], state['problems'] = cfg, None
+                    rec.ev()
+                    try:
+                        with contextlib.redirect_stdout(sink):
+                            em2 = E.compute_emissions(pm, fuel, traj)
+                    except Exception as e:  # noqa: BLE001
+                        rec.violation('compute_emissions raised for a trajectory that already '
+                                      f'carries an inventory: {type(e).__name__}',
+                                      {'error': f'{type(e).__name__}: {str(e)[:200]}',
+                                       'config': cfg}, case)
+                        previous = None
+                        continue
+                    probs2 = emis.check_inventory(em2, pm, fuel, traj, cfg)
+                    if probs2:
+                        mech, det = probs2[0]
+                        rec.violation('recomputed after the trajectory got another fuel profile: '
+                                      + mech, {**det, 'config': cfg, 'trajectory': td}, case)
+                    else:
+                        rec.cls('recompute:after-attaching-inventory-and-changing-fuel')
+                    previous = None
             if k < 2:
                 rec.sample({'config': cfg, 'pm': pm.desc, 'trajectory': td, 'fuel': fuel_kind})
     finally:
